@@ -158,13 +158,35 @@ def ipAddress (c : Ctx) (s : PState) : PR Node :=
   (pnext c s).bind fun r s =>
     if inTable Gen.ParseFacts.ipAddressArms r.1 then decodeLit c r.2 s else fail .expected r.2 s
 
+/-- the slices `simple_literal` takes of the token text `s` before it decodes
+it: `&s[1..s.len() - 1]` (string and character literals: the quotes are cut
+off), `&s[2..]` (`0x…`, `AS…`). Off a character boundary, out of range or with
+`s.len() = 0` they panic. -/
+def litSlices (k : TokKind) (t : List Char) : Res Unit :=
+  match k with
+  | .string | .char =>
+    match usub (blen t) 1 with
+    | .panic => .panic
+    | .ok e =>
+      match slice t 1 e with
+      | .ok _ => .ok ()
+      | .panic => .panic
+  | .hex | .asn =>
+    match sliceFrom t 2 with
+    | .ok _ => .ok ()
+    | .panic => .panic
+  | _ => .ok ()
+
 /-- `Parser::simple_literal` (`Bool` needs no decoding) -/
 def simpleLiteral (c : Ctx) (s : PState) : PR Node :=
   (pnext c s).bind fun r s =>
     if inTable Gen.ParseFacts.simpleLiteralArms r.1 then
-      match r.1 with
-      | .bool _ => addNode r.2 (sx "Lit" []) s .ok
-      | _ => decodeLit c r.2 s
+      match litSlices r.1 (textOf c.src r.2) with
+      | .panic => .panic
+      | .ok _ =>
+        match r.1 with
+        | .bool _ => addNode r.2 (sx "Lit" []) s .ok
+        | _ => decodeLit c r.2 s
     else fail .expected r.2 s
 
 /-- `Parser::literal` -/
